@@ -63,19 +63,6 @@ Proof.
 Qed.
 Print Assumptions C09_extend_items_not_atomic_refuted.
 
-(* IndexHierarchyGO.append(('a',2)) after ('a',1),('b',1): accepted, but ('b',2) is what is stored *)
-Theorem C09_hier_append_misplaces_refuted :
-  exists (t t' : lvl Z) (key : list Z),
-    M_lappend Z Z.eqb t key = Ok t' /\
-    on_last_edge Z Z.eqb t key = false /\
-    flatten Z t' <> flatten Z t ++ [key] /\
-    flatten Z t' = flatten Z t ++ [[20; 2]].
-Proof.
-  exists (Node [10; 20] [Leaf [1]; Leaf [1]]), (Node [10; 20] [Leaf [1]; Leaf [1; 2]]), [10; 2].
-  repeat split; try reflexivity. vm_compute. discriminate.
-Qed.
-Print Assumptions C09_hier_append_misplaces_refuted.
-
 (* IndexHierarchyGO.extend with an existing outer label after a new one: rejected, yet the root index
    keeps the new outer label without a subtree *)
 Theorem C09_hier_extend_not_atomic_refuted :
